@@ -246,6 +246,18 @@ def deepcopy (h : Heap) (o : Obj) : Heap × Obj :=
     | some as => ((r3.1.allocList (as.map h.get)).1, some (r3.1.allocList (as.map h.get)).2)
   (r4.1, ⟨r1.2, r2.2, r4.2, r3.2, o.projected⟩)
 
+/-- `est.align_origin(ref)` / `est.align(ref)`: the reference is only read through its lazy properties (its matrix resp.
+position cache may get filled), the aligned object then runs its own methods (`transform`, `scale`) -/
+def alignWith (h : Heap) (est ref : Obj) (readsRef opsEst : List HOp) : Heap × Obj × Obj :=
+  let r1 := hrun h ref readsRef
+  let r2 := hrun r1.1 est opsEst
+  (r2.1, r2.2, r1.2)
+
+/-- `merge_results`: `copy.deepcopy(results[0])` duplicates every trajectory (and array) the first result carries -/
+def deepcopyList (h : Heap) : List Obj → Heap × List Obj
+  | [] => (h, [])
+  | o :: r => ((deepcopyList (deepcopy h o).1 r).1, (deepcopy h o).2 :: (deepcopyList (deepcopy h o).1 r).2)
+
 /-- one output of `associate_trajectories`: deep copy, then `reduce_to_ids(matching ids)` -/
 def associateOne (h : Heap) (o : Obj) (ids : List Nat) : Heap × Obj :=
   let (h1, c) := deepcopy h o
